@@ -84,7 +84,7 @@ theorem capReached_iff (cfg : Config) (s : State) :
   cases cfg.cap <;> simp
 
 theorem inv_handleInput {cfg : Config} (hv : cfg.valid) {s : State} (hi : Inv cfg s)
-    (hsel : s.loop = .sel) (htok : 0 < s.tokens) : Inv cfg (handleInput cfg s) := by
+    (hsel : s.loop = .sel) (_htok : 0 < s.tokens) : Inv cfg (handleInput cfg s) := by
   obtain ⟨sig, acct, lost, idle, armed, capi, cl, clret, off⟩ := hi
   have hrun : s.running = true := by simp [State.running, hsel]
   have hcr : s.closeReturned = 0 := by
